@@ -226,7 +226,16 @@ async fn episode(p: &EpParams) -> EpReport {
             let Some(inc) = live_topic.get(t).copied() else { continue };
             tag_no += 1;
             let tag = format!("m{}", tag_no);
-            if cx.publish(t, &[Msg::tagged(&tag)]).await.is_ok() {
+            // one message in four is big (tens of KiB): whatever is computed per message must not be
+            // shared between the subscriptions that push it
+            let mut msg = Msg::tagged(&tag);
+            if rng.chance(1, 4) {
+                msg.data = format!("T:{}|", tag).into_bytes();
+                let n = rng.range(8_192, 70_000) as usize;
+                msg.data.extend((0..n).map(|k| (k * 13 % 251) as u8));
+                rep.inc("big_messages_published");
+            }
+            if cx.publish(t, &[msg]).await.is_ok() {
                 for (n, s) in subs.iter_mut() {
                     if s.topic == *t && s.topic_inc == inc {
                         s.expect.push(tag.clone());
